@@ -20,6 +20,14 @@
    the handler stopped at the error -- nothing of the tail, the straddling line at most once as the
    open partial fragment -- or it dispatched the lines of the whole stream; never the straddling
    line in two fragments (ReadOn: the lists of the model's deviation "read_on_after_error").
+6. The 4 KiB boundary of the AMQP input (bufio.Reader(4096).ReadLine): FramingOps states the limit for a
+   reader of capacity cap -- a line whose content (terminator not counted) is <= cap is dispatched whole
+   and exactly once; right after a line that filled the buffer exactly the reader may dispatch one empty
+   line (its bare terminator); beyond cap nothing is claimed -- Framing.tla checks the ReadLine model
+   against it (deviation "drop_on_isprefix": a line for which the buffer filled is skipped), and
+   FramingCapGen emits streams at the limit of a small capacity with AcceptableC.  This module scales a
+   line of j symbols to 4096 - cap + j bytes (lines of 4094 / 4095 / 4096 bytes x LF / CRLF / none / a
+   dangling CR x first / middle / last line of the body, valid distinct metrics) for the real consume loop.
 """
 import hashlib, json, os, random
 from checks import framlib
@@ -30,7 +38,7 @@ LEVEL = "model_checking"
 PAL = bytes(b for b in range(256) if b not in (10, 13))
 PAL_TEXT = b"abcdefghijklmnopqrstuvwxyz0123456789._- =;"
 STREAM_LIMIT = 65536     # bufio.Scanner: line incl. terminator (DESIGN §9: 65 535 + LF is processed whole)
-AMQP_LIMIT = 4096        # bufio.NewReaderSize(4096).ReadLine: line incl. terminator; 4096-byte content is left open
+AMQP_LIMIT = 4096        # bufio.NewReaderSize(4096).ReadLine: line content (terminator not counted) <= 4096
 UDP_MAX = 65507          # largest IPv4 UDP payload
 
 
@@ -66,6 +74,15 @@ def sim_cases(ctx, num, smin, smax):
             cs.append(c)
     if len(cs) < num:
         raise Machinery("FramingSim produced only %d streams" % len(cs))
+    return cs
+
+
+def cap_cases(ctx, gencap, exhcap, genmax):
+    """streams at the limit of a bounded reader, with AcceptableC (FramingCapGen)"""
+    r = ctx.tlc("FramingCapGen", "FramingCapGen.cfg", workers=1, consts=dict(GenCap=gencap, ExhCap=exhcap, GenMax=genmax), timeout=1500)
+    cs = [json.loads(x) for x in ctx.tlc_printed(r, "@@B")]
+    if len(cs) < 100 or any(c["need"] > c["cap"] for c in cs):
+        raise Machinery("FramingCapGen printed %d cases" % len(cs))
     return cs
 
 
@@ -125,6 +142,47 @@ def conc_long(rng, s, limit, d, total_max=None):
     return frags
 
 
+def metric_text(rng, tag, n):
+    """a valid metric line of exactly n bytes (n >= 40), the name padded"""
+    pre, suf = "c12.%s." % tag, ".%s %d.%d %d" % (rng.choice(["cpu", "mem.used", "a;t=v"]), rng.randrange(1000), rng.randrange(100),
+                                                   1500000000 + rng.randrange(10 ** 8))
+    if n - len(pre) - len(suf) < 1:
+        raise Machinery("metric_text: %d bytes is too short" % n)
+    return (pre + "p" * (n - len(pre) - len(suf)) + suf).encode()
+
+
+def conc_cap(rng, s, cap, cid, limit=AMQP_LIMIT):
+    """bounded-reader case: a line of j symbols before its LF (j >= cap - 2) becomes limit - cap + j bytes --
+    its first x/y symbol carries the padding, every other symbol is one byte -- so that `j symbols fill a
+    buffer of cap` is `the bytes fill the real buffer`; shorter lines are short metrics spelled over their
+    x/y symbols.  Returns (frags, per line (bytes before the LF, bytes of content)) or None where a line cannot be scaled (no x/y
+    symbol to carry the padding).  The x/y bytes of a line spell one valid metric of distinct name."""
+    frags = [b"\r" if c == "CR" else b"\n" if c == "LF" else None for c in s]
+    lens = []
+    for ln, (idx, term) in enumerate(line_groups(s)):
+        body = idx[:-1] if term else idx               # the symbols before the LF
+        xs = [i for i in body if frags[i] is None]
+        j = len(body)
+        if j >= cap - 2 and xs:
+            nbytes = limit - cap + j
+            text = metric_text(rng, "b%d.l%d" % (cid, ln), nbytes - (j - len(xs)))
+            big = len(text) - (len(xs) - 1)
+            parts = [text[:big]] + [text[big + k:big + k + 1] for k in range(len(xs) - 1)]
+        elif xs:
+            text = metric_text(rng, "b%d.l%d" % (cid, ln), 40 + len(xs) + rng.randrange(40))
+            parts = [text[:len(text) - (len(xs) - 1)]] + [text[len(text) - (len(xs) - 1) + k:][:1] for k in range(len(xs) - 1)]
+        else:
+            parts = []
+        for i, p_ in zip(xs, parts):
+            frags[i] = p_
+        nb = sum(len(frags[i]) for i in body)
+        # the scaling must keep the one fact the expectation depends on: the line fills the buffer or not
+        if (j >= cap) != (nb >= limit):
+            return None
+        lens.append((nb, nb - 1 if term and body and s[body[-1]] == "CR" else nb))
+    return frags, lens
+
+
 class Jobs:
     def __init__(self):
         self.jobs, self.meta, self.tails = [], {}, {}
@@ -153,7 +211,7 @@ def with_tail(rng, case, conc, which=None, first=None):
     return fr[:n], (ti, fr[n:])
 
 
-def build_jobs(ctx, exh, sim, rng):
+def build_jobs(ctx, exh, sim, rng, capcs=()):
     J = Jobs()
     q = ctx.quick()
     by_len = {}
@@ -242,6 +300,21 @@ def build_jobs(ctx, exh, sim, rng):
             f = conc_long(rng, c["s"], STREAM_LIMIT, d, total_max=UDP_MAX)
             if f and sum(len(x) for x in f) <= UDP_MAX:
                 J.add(c, f, ["whole"], ["eof"], ["udp"], cls="long-udp")
+    # (f) the AMQP reader at its 4096-byte limit: lines of limit-2 .. limit bytes (terminator not counted),
+    # expectation = AcceptableC of the scaled-down stream (whole line, optional empty line after an exact fill)
+    J.cap_stats = dict(cases=0, unscalable=0, lines_filling_the_buffer=0, line_lengths={})    # line_lengths: content bytes -> lines
+    for c in capcs:
+        r = conc_cap(rng, c["s"], c["cap"], len(J.jobs))
+        if r is None:
+            J.cap_stats["unscalable"] += 1
+            continue
+        f, lens = r
+        J.cap_stats["cases"] += 1
+        J.cap_stats["lines_filling_the_buffer"] += sum(1 for nb, _ in lens if nb >= AMQP_LIMIT)
+        for _, n in lens:
+            if n >= AMQP_LIMIT - 2:
+                J.cap_stats["line_lengths"][n] = J.cap_stats["line_lengths"].get(n, 0) + 1
+        J.add(dict(s=c["s"], eof=c["acc"], tmo=c["acc"], conts=[]), f, ["whole"], ["eof"], ["amqp"], cls="amqp-4k")
     return J
 
 
@@ -324,8 +397,12 @@ def run(ctx):
     # 2. cases with expectations from TLC
     exh = gen_cases(ctx, ctx.pick(5, 7))
     sim = sim_cases(ctx, ctx.pick(500, 5000), 8, ctx.pick(40, 60))
-    ctx.log("cases: %d exhaustive streams, %d random longer streams" % (len(exh), len(sim)))
-    J = build_jobs(ctx, exh, sim, rng)
+    capcs = cap_cases(ctx, 5, 3, ctx.pick(4, 5))
+    ctx.log("cases: %d exhaustive streams, %d random longer streams, %d streams at the limit of a bounded reader" % (len(exh), len(sim), len(capcs)))
+    J = build_jobs(ctx, exh, sim, rng, capcs)
+    if J.cap_stats["cases"] < 100 or J.cap_stats["lines_filling_the_buffer"] < 60 or \
+            not all(J.cap_stats["line_lengths"].get(n, 0) >= 20 for n in (AMQP_LIMIT - 2, AMQP_LIMIT - 1, AMQP_LIMIT)):
+        raise Machinery("too few AMQP cases at the 4096-byte limit: %s" % J.cap_stats)
     cf = ctx.write_ndjson("c12_cases.ndjson", J.jobs)
     rf = os.path.join(ctx.out, "c12_result.ndjson")
     # 3. the real code
@@ -378,7 +455,29 @@ def run(ctx):
         if judge(ctx, J, [p2], report=False)[1] != want_bad:
             raise Machinery("binding self-test failed: %s" % ("a second fragment after the read error was accepted" if want_bad
                                                               else "an acceptable list was rejected"))
+    # ... and at the AMQP limit: a recorded result with a 4096-byte line from which that line is removed
+    # (what skipping a line on isPrefix gives) must be flagged
+    # (synthesised from TLC's acceptable lists, independent of what the real code did)
+    big = "#%d:" % AMQP_LIMIT
+    probe = next((r for r in results if J.meta[r["id"]][2] == "amqp-4k" and r["outcomes"] and
+                  any(g.startswith(big) for e in expected(*J.meta[r["id"]][:2], "eof") for g in e)), None)
+    if probe is None:
+        raise Machinery("no AMQP case with a %d-byte line" % AMQP_LIMIT)
+    for e in sorted(expected(*J.meta[probe["id"]][:2], "eof")):
+        for got, want_bad in ((list(e), 0), ([g for g in e if not g.startswith(big)], 1)):
+            p2 = json.loads(json.dumps(probe))
+            p2["outcomes"] = [dict(p2["outcomes"][0], got=got, unstable=0)]
+            if judge(ctx, J, [p2], report=False)[1] != want_bad:
+                raise Machinery("binding self-test failed: %s" % ("a result without its %d-byte line was accepted" % AMQP_LIMIT
+                                                                  if want_bad else "an acceptable list was rejected"))
     ctx.cov["binding_selftests"] = "passed"
+    capres = [r for r in results if J.meta[r["id"]][2] == "amqp-4k"]
+    ctx.cov["amqp_4k_limit"] = dict(J.cap_stats, line_lengths={str(k): v for k, v in sorted(J.cap_stats["line_lengths"].items())},
+                                    results=len(capres),
+                                    results_with_more_than_one_acceptable_list=sum(1 for r in capres if len(J.meta[r["id"]][0]["eof"]) > 1),
+                                    results_with_an_empty_line_after_a_long_line=sum(
+                                        1 for r in capres for o in r["outcomes"]
+                                        if any(a.startswith("#") and b == "" for a, b in zip(o["got"], o["got"][1:]))))
 
     cov = ctx.cov
     per_tr, nontriv = {}, set()
@@ -404,7 +503,8 @@ def run(ctx):
     cov["rule"] = ("evaluations = executions of a real handler on one (stream, concretisation, cut set, terminating condition); "
                    "streams = every symbol sequence over {x,y,CR,LF} of length <= %d (TLC, one initial state each) + %d seeded random "
                    "streams of 8..%d symbols (TLC simulation) + long-line concretisations up to 65536 B (TCP/plain), 65507 B (UDP), "
-                   "4096 B incl. terminator (AMQP); cut sets = every subset of symbol boundaries for the exhaustive streams, one-byte "
+                   "4096 B incl. terminator (AMQP) + AMQP bodies with lines of 4094..4096 B content at the reader's limit (FramingCapGen, "
+                   "scaled from capacity 5 / 3 symbols); cut sets = every subset of symbol boundaries for the exhaustive streams, one-byte "
                    "reads and random cut sets for the longer ones, every single cut position for ~4 KiB streams; for the timeout conditions a tail chosen by TLC (Conts) is on offer to "
                    "reads issued after the error; distinct_nontrivial = "
                    "distinct (stream, transport, terminating condition, concretisation class) with at least one dispatched line" %
@@ -424,8 +524,14 @@ def run(ctx):
         "stopped at the error (nothing of the tail dispatched) or it dispatched the lines of the whole stream; a handler that "
         "reads the tail but dispatches nothing of it is not told apart (only counted); on real TCP the tail is sent 1.5 "
         "timeout periods after the stream, which affects only the detection power, not the verdict",
-        "lines are driven up to the supported limits only: line + terminator <= 65536 B on TCP/UDP (datagram <= 65507 B), "
-        "<= 4096 B on AMQP; behaviour beyond (token too long / split by ReadLine) is not asserted",
+        "lines are driven up to the supported limits only: line + terminator <= 65536 B on TCP/UDP (datagram <= 65507 B); "
+        "on AMQP line content (terminator not counted) <= 4096 B; behaviour beyond (token too long / split by ReadLine) is "
+        "not asserted",
+        "AMQP, a line that fills the 4096-byte reader exactly (4096 B, or 4095 B + CRLF): dispatched whole and exactly once; one "
+        "additional EMPTY line right after it (the bare terminator) is accepted, as is the dangling CR by itself where the LF "
+        "never came (final unterminated line ending in CR) -- statement silent; a content that itself ends in CR (.. CR CR LF) "
+        "is counted one byte longer (the reader cannot tell that CR from the first half of CRLF), so 4095 B + CR CR LF is beyond "
+        "the limit and not asserted",
         "the capture dispatcher checks that its argument is stable during the call; reuse of the buffer after Dispatch "
         "returned is allowed by the Dispatcher contract and only counted (reused_after_return)",
         "the kernel may coalesce TCP segments; the read-timeout cases accept an empty dispatch list only when the client "
